@@ -28,6 +28,10 @@ def sharing_configs() -> List[dict]:
                v("off", 2, size=3, off=1), v("off", 3, size=2, off=0)], targets=[4, 5]),
         c(8, [v("chain", 0, slen=2, lst=[2, 0, 3]), v("off", 1, size=4, off=2), v("rev", 2, size=4, width=2), v("off", 1, size=4, off=0)], targets=[3, 4]),
         c(9, [v("off", 0, size=3, off=0), v("off", 0, size=3, off=3), v("off", 0, size=3, off=6)]),
+        # two CONTIGUOUS files side by side: a read of one ends exactly where the other's sector begins
+        c(12, [v("chain", 0, slen=2, lst=[0, 1, 2]), v("chain", 0, slen=2, lst=[3, 4, 5])]),
+        c(12, [v("chain", 0, slen=2, lst=[0, 1, 2]), v("chain", 0, slen=2, lst=[3, 4, 5]), v("off", 1, size=4, off=2), v("off", 2, size=4, off=0)], targets=[3, 4]),
+        c(16, [v("mdf", 0, size=8, slen=2, hdr=1, tail=1), v("chain", 1, slen=2, lst=[0, 1]), v("chain", 1, slen=2, lst=[2, 3])], targets=[2, 3]),
     ]
 
 
@@ -40,9 +44,17 @@ def schedules(chk: Check, K: int, blocks: int, sizes, extras, max_extras: int, l
 
 
 class Target:
-    """a real image with its data streams and what each must deliver"""
-    def __init__(self, name, image_obj, streams_, expected, ls_paths):
+    """a real image with its data streams and what each must deliver; lead[i] = offset of stream i's first byte inside its
+    first sector/cluster of size unit (so that reads can be aimed at sector boundaries)"""
+    def __init__(self, name, image_obj, streams_, expected, ls_paths, lead=None, unit=0):
         self.name, self.image, self.streams, self.expected, self.ls_paths = name, image_obj, streams_, expected, ls_paths
+        self.lead, self.unit = lead or [0] * len(streams_), unit
+
+    def size_of(self, i, cls, pos):
+        if cls != 4 or not self.unit:
+            return SIZES.get(cls, 4096)
+        n = self.unit - (self.lead[i] + pos) % self.unit       # up to the next sector / cluster boundary
+        return n if n > 0 else self.unit
 
 
 def akai_target(chk: Check, wrap_mdf: bool, work: str) -> Target:
@@ -65,15 +77,17 @@ def akai_target(chk: Check, wrap_mdf: bool, work: str) -> Target:
     img = repo.open_image(path)
     from smpl_extract.actions import ls_action  # routines are set by ls
     repo.ls(img, "")
-    strs, exp = [], []
+    strs, exp, lead = [], [], []
+    starts = {(v["name"], f["name"]): 140 + 2 * f["ps"] for p in case["parts"] for v in p["vols"] for f in v["files"]}
     for part in img.children:
         for vol in part.children:
             for f in vol.children:
                 if hasattr(f, "_data_stream") and (vol.name, f.name) in want:
                     strs.append(f._data_stream)
                     exp.append(want[(vol.name, f.name)])
+                    lead.append(starts[(vol.name, f.name)])
     ls_paths = ["A:", "A:/" + case["parts"][0]["vols"][0]["name"], "A:/" + case["parts"][0]["vols"][1]["name"], "A:/nope"]
-    return Target("akai-raw-sectors" if wrap_mdf else "akai", img, strs, exp, ls_paths)
+    return Target("akai-raw-sectors" if wrap_mdf else "akai", img, strs, exp, ls_paths, lead, 8192)
 
 
 def roland_target(chk: Check, work: str) -> Target:
@@ -88,7 +102,9 @@ def roland_target(chk: Check, work: str) -> Target:
     repo.ls(img, "")
     e = max(case["expected"], key=lambda e: len(e["samples"]))
     want = {s["name"]: rw.read_extents(image, case, s["extents"], s["reversed"]) for s in e["samples"]}
-    strs, exp = [], []
+    strs, exp, lead = [], [], []
+    first = {s["name"]: 2 * s["pts"][0] for s in case["img"]["samples"]}
+    rev = {s["name"]: s["mode"] in (5, 6) for s in case["img"]["samples"]}
     vol = [v for v in img.children if v.name == e["volume"]][0]
     perf = [p for p in vol.children if p.name == e["performance"]][0]
     seen = set()
@@ -97,7 +113,8 @@ def roland_target(chk: Check, work: str) -> Target:
             seen.add(f.name)
             strs.append(f.to_generalized().data_streams[0].stream)
             exp.append(want[f.name])
-    return Target("roland", img, strs, exp, ["", e["volume"], e["volume"] + "/" + e["performance"], "nope/x"])
+            lead.append(0 if rev[f.name] else first[f.name])
+    return Target("roland", img, strs, exp, ["", e["volume"], e["volume"] + "/" + e["performance"], "nope/x"], lead, 9216)
 
 
 def cdda_target(chk: Check, work: str) -> Target:
@@ -125,7 +142,7 @@ def run_schedule(chk: Check, t: Target, sched: list, label: str):
         kind, i, arg = o[0], o[1], o[2]
         try:
             if kind == "read":
-                n = SIZES[arg]
+                n = t.size_of(i - 1, arg, pos[i - 1])
                 got = t.streams[i - 1].read(n)
                 want = t.expected[i - 1][pos[i - 1]: pos[i - 1] + n]
                 if got != want:
@@ -163,11 +180,22 @@ def run(chk: Check):
     if r.ok:
         raise tlc.TlcError("sensitivity self-test failed: removing the re-seek test is not detected by the specification")
     chk.exhaustive = True
+    # behaviours of the cursor machine itself, replayed call by call into the real view classes
+    from .c08 import replay_cases
+    resb = chk.run_tlc("MCStreams", streams.streams_cfg(depth=10, keep=True, opviews="targets", emit=True, invariants=streams.ALL_INVARIANTS + ["Emit"]),
+                       files={"MCStreams.tla": mc}, simulate=f"num={400 if thorough else 80}", depth=12, seed=chk.seed, workers=1,
+                       label="behaviours on shared-handle configurations (simulate, depth 10)", timeout_s=3000)
+    replay_cases(chk, resb.cases, "shared-sim")
+    resb2 = chk.run_tlc("MCStreams", streams.streams_cfg(depth=3, keep=True, opviews="targets", emit=True, invariants=streams.ALL_INVARIANTS + ["Emit"]),
+                        files={"MCStreams.tla": streams.mc_module(sharing_configs()[-3:-2] if not thorough else sharing_configs()[-3:])},
+                        label="behaviours on contiguous shared files (exhaustive depth 3)", timeout_s=3000)
+    cases3 = resb2.cases if thorough else [c for c in resb2.cases if sum(1 for h in c["hist"] if h["op"]["op"] == "read") >= 2]
+    replay_cases(chk, cases3, "shared-exh3")
     ex2 = [["seek", 1, 0], ["seek", 2, 1], ["ls", 1, 1], ["ls", 2, 3]]
-    s2 = schedules(chk, 2, 3, {1, 3}, [], 0, "schedules: all interleavings of 2 streams x 3 blocks x 2 sizes")
+    s2 = schedules(chk, 2, 3, {1, 4}, [], 0, "schedules: all interleavings of 2 streams x 3 blocks x 2 sizes (4096 bytes / up to the next sector boundary)")
     s3 = schedules(chk, 3, 2, {1}, [], 0, "schedules: all interleavings of 3 streams x 2 blocks")
     s2x = schedules(chk, 2, 2, {2}, ex2, 2 if thorough else 1, "schedules: 2 streams x 2 blocks with seeks and listings")
-    sl = schedules(chk, 3, 6, {1, 2, 3}, ex2 + [["seek", 3, 2], ["ls", 3, 2]], 4, "schedules: long random", simulate=40 if thorough else 6)
+    sl = schedules(chk, 3, 6, {1, 2, 3, 4}, ex2 + [["seek", 3, 2], ["ls", 3, 2]], 4, "schedules: long random", simulate=40 if thorough else 6)
     work = tlc.scratch_dir("c11_")
     try:
         targets = [akai_target(chk, False, work), akai_target(chk, True, work), roland_target(chk, work), cdda_target(chk, work)]
